@@ -490,14 +490,18 @@ def _net_factory():
             vals = list(addrs.values())
             for a, b in itertools.combinations(vals, 2):
                 eng.assume(a != b, check=False)  # no duplicate addresses are configured
+            outside: list[Any] = []
             for key, bv in addrs.items():
                 vm, nic = key.split(".")
                 m = mask_of(prefixes[(vm, nic)])
-                # host addresses: neither the network nor (with the dhcp range) colliding with allocatable offsets
+                # host addresses: any address of the subnet but the network address
                 host = bv & z3.BitVecVal(~m & 0xFFFFFFFF, 32)
-                eng.assume(z3.And(host != 0, z3.Or(z3.ULT(host, 100), z3.UGT(host, 102))), check=False)
+                eng.assume(host != 0, check=False)
+                outside.append(z3.Or(z3.ULT(host, 100), z3.UGT(host, 102)))
+            # static addresses may lie inside a DHCP pool (100-102); whether they do is decided once per path
+            statics_outside = eng.decide(z3.And(*outside), "static addresses outside the DHCP pools")
             env = StubEnv()
-            desc = {"vms": n_vms, "nics": n_nics, "prefixes": {f"{k[0]}.{k[1]}": v for k, v in prefixes.items()}}
+            desc = {"vms": n_vms, "nics": n_nics, "prefixes": {f"{k[0]}.{k[1]}": v for k, v in prefixes.items()}, "static_addresses_outside_pools": statics_outside}
             try:
                 net = VMNetwork(params, env)
             except IndexError as e:
@@ -545,7 +549,7 @@ def _net_factory():
                     net.reattach_interface(client, server)
                 except IndexError as e:
                     # every registered network has the pool 100-102: with at most two reattachments it cannot be used up
-                    if len(steps) <= 3:
+                    if len(steps) <= 3 and statics_outside:
                         model = eng.current_model()
                         desc["addresses"] = {k: _dotted(model.eval(v, model_completion=True).as_long()) for k, v in addrs.items()} if model is not None else {}
                         raise symx.Violation(f"after reattaching {steps}: exhaustion reported although the pool 100-102 has free addresses: {e}", {"case": desc, "class": "reattach early exhaustion", "steps": steps, "expect": "free addresses"})
@@ -636,5 +640,5 @@ def run(ctx: common.Context) -> None:
         for what, cls, detail in c.violations:
             ctx.report(f"C18 {cls}", what + f" [{detail['case']}]", detail, replay_network)
     ctx.bounds = {"kernels": "all 33 prefix lengths x all 32-bit addresses (bit-vector validity queries); allocation ranges of 1..4 offsets", "network": f"1..{_cfg['max_vms']} vms x 1..{_cfg['max_nics']} nics, prefix lengths {PREFIXES}, arbitrary distinct host addresses (32-bit), <= {_cfg['reattach']} reattachments"}
-    ctx.assumptions = ["netconfig.ipaddress replaced by a bit-vector shim (IPv4Address, ip_interface, network/netmask); trusted: the shim has the semantics of the ipaddress module", "vm/env are stubs as in the selftests; configured addresses are distinct host addresses below the DHCP range"]
+    ctx.assumptions = ["netconfig.ipaddress replaced by a bit-vector shim (IPv4Address, ip_interface, network/netmask); trusted: the shim has the semantics of the ipaddress module", "vm/env are stubs as in the selftests; configured addresses are distinct host addresses (inside or outside the DHCP pool 100-102)"]
     ctx.coverage["explanation"] = "the real netconfig/network code executed on 32-bit bit-vector addresses; kernels by validity queries per prefix length, the registries of the real VMNetwork fork on symbolic address equality"
